@@ -303,6 +303,29 @@ class Lemmas:
                 ok &= self._ob("ROWWIDTH", "push-advance:Bits", good, "Bits{number} advances the column by number", "pushing Bits{number: %s} advances the column counter by `%s`" % (num, inc), "%s:%d" % (pdr.file, t["span"]["line"]))
             else:
                 ok &= self._ob("ROWWIDTH", "push-advance:%s" % variant, inc == "1", "one entry, column +1", "pushing DataEntry::%s advances the column counter by `%s` instead of 1" % (variant, inc), "%s:%d" % (pdr.file, t["span"]["line"]))
+        # one trip of the entry loop = exactly one push and exactly one advance of the column counter
+        heads = []
+        for comp in cfg.sccs():
+            if len(comp) > 1:
+                cs_ = set(comp)
+                heads += [x for x in comp if any(p_ not in cs_ for p_ in pdr.preds(x))]
+        heads = [h for h in heads if pdr.term(h)["t"] == "call" and callee_name(pdr.term(h))[0] == "parser::Parser::peek"]
+        if heads:
+            incb = set()
+            for bb in pdr.reachable_blocks():
+                for st in pdr.blocks[bb]["stmts"]:
+                    if st["s"] == "assign" and not st["lhs"]["p"] and pdr.local_name(st["lhs"]["l"]) == "signal_index" and bb != 0 and st["rv"]["r"] != "use" or (st["s"] == "assign" and not st["lhs"]["p"] and pdr.local_name(st["lhs"]["l"]) == "signal_index" and st["rv"]["r"] == "use" and st["rv"]["a"].get("k") != "const"):
+                        incb.add(bb)
+            shapes = set()
+            for pi in tab.paths(P, pdr, start=heads[0]):
+                if pi.back is None:
+                    continue
+                np_ = sum(1 for bb, nm, a in pi.calls() if nm == "std::vec::Vec::push" and canon(a[0]).startswith("Vec::with_capacity"))
+                ni = sum(1 for bb in pi.path if bb in incb)
+                shapes.add((np_, ni))
+            ok &= self._ob("ROWWIDTH", "push-advance:one-of-each-per-trip", shapes == {(1, 1)}, "every continuing trip of the entry loop pushes one entry and advances the column counter once", "trips of the entry loop do (pushes, counter advances) = %s: an entry can be dropped or the counter can run ahead of the data" % sorted(shapes))
+        else:
+            ok &= self._ob("ROWWIDTH", "push-advance:entry-loop-anchor", False, "", "entry loop of parse_data_row not found")
         # DataEntry::eval: Bits -> `number` entries, everything else -> exactly one
         ev = P.body("stmt::DataEntry::eval")
         if ev is None:
